@@ -99,21 +99,38 @@ func (o *Opts) CorpusLines() []string {
 
 // Scen names one generated scenario of a system-level harness: "SCEN <seed> <idx> <tier>".
 type Scen struct {
-	Seed uint64
-	Idx  int
-	Tier string
+	Seed  uint64
+	Idx   int
+	Tier  string
+	Fixed string // encoded scenario (world + request) overriding the generated one; "" = as generated
 }
 
-func (s Scen) String() string { return fmt.Sprintf("SCEN %d %d %s", s.Seed, s.Idx, s.Tier) }
+func (s Scen) String() string {
+	if s.Fixed != "" {
+		return fmt.Sprintf("SCEN %d %d %s %s", s.Seed, s.Idx, s.Tier, s.Fixed)
+	}
+	return fmt.Sprintf("SCEN %d %d %s", s.Seed, s.Idx, s.Tier)
+}
+
+// ParseScen: "<KIND> seed idx tier [encoded-scenario]"
+func ParseScen(kind, l string) (Scen, bool) {
+	f := strings.Fields(l)
+	if len(f) < 4 || f[0] != kind {
+		return Scen{}, false
+	}
+	sc := Scen{Seed: Atou(f[1]), Idx: Atoi(f[2]), Tier: f[3]}
+	if len(f) >= 5 {
+		sc.Fixed = f[4]
+	}
+	return sc, true
+}
 
 // Scens: the corpus scenarios (kind = first word of their lines, "SCEN" by default) followed by n generated ones.
 func (o *Opts) Scens(kind string, n int) []Scen {
 	var out []Scen
 	seen := map[string]bool{}
 	for _, l := range o.CorpusLines() {
-		f := strings.Fields(l)
-		if len(f) >= 4 && f[0] == kind {
-			sc := Scen{Atou(f[1]), Atoi(f[2]), f[3]}
+		if sc, ok := ParseScen(kind, l); ok {
 			if !seen[sc.String()] {
 				seen[sc.String()] = true
 				out = append(out, sc)
@@ -121,7 +138,7 @@ func (o *Opts) Scens(kind string, n int) []Scen {
 		}
 	}
 	for i := 0; i < n; i++ {
-		sc := Scen{o.Seed, i, o.Tier}
+		sc := Scen{Seed: o.Seed, Idx: i, Tier: o.Tier}
 		if !seen[sc.String()] {
 			out = append(out, sc)
 		}
